@@ -900,7 +900,7 @@ def run(pid, tier, rep, replay=None):
                 c["tau"] = conv(want[i]["tau"])       # the mobility forces the spec says produce udot = ud
             f.write(json.dumps(c) + "\n")
     pr = subprocess.run(["timeout", "1200", binpath, pfile, ofile], capture_output=True, text=True)
-    outs = [json.loads(l) for l in open(ofile)] if os.path.exists(ofile) else []
+    outs = vlib.read_ndjson(ofile)
     if pr.returncode != 0 or len(outs) != len(idx):
         c = cfgs[idx[min(len(outs), len(idx) - 1)]]
         rep.violation("crash", {"config": c}, "the harness died at %s" % json.dumps(c))
